@@ -51,6 +51,19 @@ def tampers(rng, g, hl, others, full):
             yield "trunc%d+len" % k, fix_len(g[:n - k])
         yield "ext%d" % k, g + "0" * k
         yield "ext%d+len" % k, fix_len(g + "0" * k)
+    # one character in front of / behind the genuine block, length field untouched and fixed up: every ASCII letter and digit
+    # (transport wrappers such as a scheme tag), blanks and line ends
+    for ch in t.ALNUM + " \t\r\n\x00,;:\"'":
+        yield "prefix-ins", ch + g
+        yield "suffix-ins", g + ch
+    for ch in "RSUXK 0\n":
+        yield "prefix-ins+len", fix_len(ch + g)
+        yield "suffix-ins+len", fix_len(g + ch)
+    yield "prefix-ins", g[0] + g
+    yield "line-folded", g[:hl] + "\n" + g[hl:]
+    yield "line-folded", "\n".join(g[i:i + 32] for i in range(0, n, 32))
+    yield "surrounded-by-blanks", " " + g + " "
+    yield "trailing-newline", g + "\r\n"
     # white space in the binary section (bytes.fromhex skips it)
     for p in (hl, hl + 2, n - 2):
         yield "space@%d" % p, g[:p] + " " * bs + g[p:]
@@ -130,7 +143,8 @@ def run(ctx):
                             items.append((k3, g, False, g, "kbpk-other-length", key))
     budget = ctx.n(2600, 60000)
     if len(items) > budget:
-        always = ("genuine", "lower-case hex", "kbpk-other-length", "mac-blank-ws")
+        always = ("genuine", "lower-case hex", "kbpk-other-length", "mac-blank-ws", "prefix-ins", "prefix-ins+len", "line-folded",
+                  "surrounded-by-blanks", "trailing-newline")
         always_prefix = ("mac-tail-blank", "mac-head-blank", "keydata-blank", "keydata-tail-blank")
         keep = [it for it in items if it[4] in always or it[4].startswith(always_prefix)]
         rest = [it for it in items if not (it[4] in always or it[4].startswith(always_prefix))]
@@ -208,6 +222,9 @@ def run(ctx):
                 viol.append({"what": "a reused KeyBlock rejected a block authentic under its current KBPK",
                              "input": {"kbpk": k.hex(), "ops": [core.op_token(x) for x in ops]}, "expected": "key", "observed": out[:80]})
     dist["reused_object_sequences"] = len(seqs)
+    tv, tcalls = t.threaded_unwraps(rng)
+    viol += tv
+    dist["unwraps_under_threads_with_different_kbpks"] = tcalls
     if not samples:
         samples.append({"kind": items[-1][4], "string": items[-1][1][:90]})
     return {"evaluations": len(items), "distinct_nontrivial": len(seen), "samples": samples, "distribution": dist,
